@@ -872,6 +872,11 @@ def _contains_kind(T: dict, kinds) -> bool:
 def _tagged_layout(T: dict):
     if T['k'] == 'tagged':
         return T['lay']
+    if T['k'] == 'union':      # the layouts of the union's own members come first (wrapping ones before internal)
+        lays = [a['lay'] for a in T['alts'] if a['k'] == 'tagged']
+        for lay in ('ext', 'adj', 'int'):
+            if lay in lays:
+                return lay
     for sub in type_children(T):
         r = _tagged_layout(sub)
         if r:
